@@ -184,6 +184,35 @@ def rule_coordinates_in_field(ctx: Ctx, rep: Report) -> None:
     rep.floor(rule, 2)
 
 
+def rule_eq_key_complete(ctx: Ctx, rep: Report) -> None:
+    """C01.eq_key_complete: two curves compare (and hash) equal when their
+    `_eq_key`s do, and memoized tables are stored under that equality: the key
+    carries every parameter the arithmetic reads -- p, a, b from the group;
+    G, n and the cofactor from the curve, on top of the group's (`super()`).
+    A key without `a` makes two curves that differ in it one curve: the second
+    to multiply is handed the first one's tables."""
+    rule = "C01.eq_key_complete"
+    gk = ctx.func(f"{CG}.CurveGroup._eq_key")
+    ck = ctx.func(f"{CV}.Curve._eq_key")
+
+    def parts(fi) -> set[str]:
+        out = set()
+        for r in own_nodes(fi.node):
+            if isinstance(r, ast.Return) and r.value is not None:
+                for x in ast.walk(r.value):
+                    if isinstance(x, ast.Attribute) and isinstance(x.value, ast.Name) and x.value.id == "self":
+                        out.add(x.attr.lstrip("_"))
+                    if isinstance(x, ast.Call) and str(norm(x.func)) == "super()._eq_key":
+                        out.add("<super>")
+        return out
+    g_, c_ = parts(gk), parts(ck)
+    rep.ob(rule, "CurveGroup._eq_key", {"p", "a", "b"} <= g_, gk.where(), f"group key over {sorted(g_)}" if {"p", "a", "b"} <= g_ else f"the group's key is {sorted(g_)}: it lacks {sorted({'p', 'a', 'b'} - g_)}")
+    need_c = {"G", "n", "cofactor"}
+    inherits = "<super>" in c_ or {"p", "a", "b"} <= c_
+    rep.ob(rule, "Curve._eq_key", need_c <= c_ and inherits, ck.where(), f"curve key over {sorted(c_)}" if need_c <= c_ and inherits else
+           f"the curve's key is {sorted(c_)}: it lacks {sorted((need_c | ({'p', 'a', 'b'} if '<super>' not in c_ else set())) - c_)} -- two curves differing there are one curve to `==`, to `hash` and to the memoized tables")
+
+
 def rule_reduce(ctx: Ctx, rep: Report) -> None:
     """C01.reduce: the scalar handed to a multiplication is reduced mod the order."""
     rule = "C01.reduce"
@@ -313,6 +342,7 @@ RULES = [
     ("C01.on_curve", rule_on_curve),
     ("C01.infinity_by_y", rule_infinity_by_y),
     ("C01.coordinates_in_field", rule_coordinates_in_field),
+    ("C01.eq_key_complete", rule_eq_key_complete),
     ("C01.reduce", rule_reduce),
     ("C01.operand_reduced", rule_operand_reduced),
     ("C01.curve_ctor", rule_curve_ctor),
@@ -321,6 +351,8 @@ RULES = [
 ]
 
 CONTROLS = [
+    {"rule": "C01.eq_key_complete", "name": "the curve's equality key forgets a", "module": CV,
+     "edit": lambda ctx: M.sub_expr(ctx, f"{CV}.Curve._eq_key", lambda n: isinstance(n, ast.Return), "return (self.p, self._b, *self.G, self.n, self.cofactor)")},
     {"rule": "C01.coordinates_in_field", "name": "is_on_curve bounds y only (F22)", "module": CG,
      "edit": lambda ctx: M.drop_if(ctx, f"{CG}.CurveGroup.is_on_curve", lambda n: "Q[0]" in norm(n.test) and "self.p" in norm(n.test))},
     {"rule": "C01.operand_reduced", "name": "tonelli_var compares the operand before reducing it", "module": NT,
